@@ -158,6 +158,31 @@ def exCert : Alias.Cert := { removed := [⟨.w, [2], [3]⟩, ⟨.add, [1, 0], [4
 example : Alias.schedsOkB exAlias exCert = true ∧
     (Alias.applyCert exAlias exCert).nets = [⟨.add, [0, 1], [2]⟩, ⟨.w, [2], [5]⟩, ⟨.w, [2], [6]⟩] := by decide
 
+/-- **constant propagation** (`_constant_prop_pass`) is the same transformation with three more justifications
+    (`Alias.justConst`, `justConst1`, `justIdent`, `rewriteJustified`): a net whose arguments are all constants is replaced
+    by a constant wire of the value the documented semantics gives (`Alias.foldVal` — the folding is *computed from the
+    specification*, not from the pass's tables); a one-bit gate with one constant operand is removed in favour of a
+    constant or of its other operand, or rewritten into an inverter of it, according to its two-row truth table
+    (`oneConstTable`); a net driving an Output is rewritten into a `w` net instead of being removed.  The statement is
+    `alias_elimination_run_eq` for certificates with `rewrites`; registers folded to constants (the sanctioned
+    difference of the property) are outside the model.  Example: `x = 1 & 1` folds to the constant 1, `y = a ^ x` reads the
+    constant instead of `x`, `z = a ^ 1` becomes `~a`, `o = b & 0` becomes `o = w 0`. -/
+def exConst : Block :=
+  { wires := #[⟨"a", 1, .input⟩, ⟨"b", 1, .input⟩, ⟨"k1", 1, .const 1⟩, ⟨"k0", 1, .const 0⟩, ⟨"x", 1, .plain⟩,
+               ⟨"y", 1, .plain⟩, ⟨"z", 1, .plain⟩, ⟨"o", 1, .output⟩, ⟨"oy", 1, .output⟩, ⟨"oz", 1, .output⟩,
+               ⟨"c1", 1, .const 1⟩, ⟨"c0", 1, .const 0⟩]
+    nets := [⟨.and, [2, 2], [4]⟩, ⟨.xor, [0, 4], [5]⟩, ⟨.xor, [0, 2], [6]⟩, ⟨.and, [1, 3], [7]⟩,
+             ⟨.w, [5], [8]⟩, ⟨.w, [6], [9]⟩]
+    mems := [] }
+
+def exConstCert : Alias.Cert :=
+  { removed := [⟨.and, [2, 2], [4]⟩], sigma := [(4, 10)],
+    rewrites := [(⟨.xor, [0, 2], [6]⟩, ⟨.inv, [0], [6]⟩), (⟨.and, [1, 3], [7]⟩, ⟨.w, [11], [7]⟩)] }
+
+example : Alias.schedsOkB exConst exConstCert = true ∧
+    (Alias.applyCert exConst exConstCert).nets =
+      [⟨.xor, [0, 10], [5]⟩, ⟨.inv, [0], [6]⟩, ⟨.w, [11], [7]⟩, ⟨.w, [5], [8]⟩, ⟨.w, [6], [9]⟩] := by decide
+
 /-- non-vacuity for dead-logic removal: the unread `u = c + a` of `exAlias` may go -/
 example : Dead.deadSchedsOkB { exAlias with nets := exAlias.nets.filter (fun n => n.dests != [6]) } [⟨.add, [1, 0], [4]⟩] = true := by
   decide
